@@ -366,6 +366,11 @@ func StrLess(c *smt.Ctx, a, b *smt.Term) *smt.Term {
 	return c.App("str_lt", a, b)
 }
 
+func (e *ev) likeUF(a, b *smt.Term) *smt.Term {
+	e.c.DeclareFun("sql_like", []smt.Sort{smt.Str, smt.Str}, smt.Bool)
+	return e.c.App("sql_like", a, b)
+}
+
 func (e *ev) cmp(op string, a, b Val) Val {
 	a, b = e.coerce(a, b)
 	c := e.c
@@ -482,6 +487,33 @@ func (e *ev) expr(x Expr, sc []scope) Val {
 		}
 	case Not:
 		return e.not3(e.expr(x.X, sc))
+	case Like:
+		// LIKE: a pattern made of '%' only matches everything; a concrete pattern without wildcards
+		// and a symbolic pattern match at least the equal string (ASCII case folding and wildcards
+		// inside a symbolic pattern are represented by an uninterpreted predicate: a counterexample
+		// that depends on it does not replay and is reported as inconclusive).
+		v, pat := e.expr(x.X, sc), e.expr(x.Pat, sc)
+		if v.K != KStr || pat.K != KStr {
+			e.env.Unsupported("sql: LIKE on non-strings")
+		}
+		var t *smt.Term
+		if ps, ok := c.GoString(pat.T); ok {
+			switch {
+			case ps != "" && strings.Trim(ps, "%") == "":
+				t = c.True()
+			case !strings.ContainsAny(ps, "%_"):
+				t = c.Or(c.Eq(v.T, pat.T), c.And(c.Not(c.Eq(v.T, pat.T)), e.likeUF(v.T, pat.T)))
+			default:
+				e.env.Unsupported("sql: LIKE with a wildcard pattern other than %")
+			}
+		} else {
+			t = c.Or(c.Eq(v.T, pat.T), e.likeUF(v.T, pat.T))
+		}
+		r := Val{K: KBool, T: t, Null: c.Or(v.Null, pat.Null)}
+		if x.Neg {
+			return e.not3(r)
+		}
+		return r
 	case Between:
 		v := e.expr(x.X, sc)
 		r := e.and3(e.cmp(">=", v, e.expr(x.Lo, sc)), e.cmp("<=", v, e.expr(x.Hi, sc)))
